@@ -1,6 +1,7 @@
 package c16
 
 import (
+	"github.com/bronlabs/bron-crypto/pkg/base/serde"
 	"bytes"
 	"crypto/sha256"
 	"encoding/hex"
@@ -30,6 +31,8 @@ type pkey struct {
 	grp     *znstar.PaillierGroupKnownOrder
 	sk      *paillier.SecretKey
 	pk      *paillier.PublicKey
+	skStored *paillier.SecretKey // the same key after a store/reload (CBOR) round trip: "every Paillier key" includes reloaded ones
+	pkStored *paillier.PublicKey
 	ctLen   int
 	plains  []namedInt // negative value => built with NewPlaintextSymmetric
 	nonces  []namedInt
@@ -88,7 +91,8 @@ func newPKey(e primePair, depth int) *pkey {
 	if err != nil {
 		panic(engine.HarnessError{Msg: "NewSecretKey refused the group: " + err.Error()})
 	}
-	k := &pkey{name: fmt.Sprintf("%s/%d", e.flavour, e.bits), flavour: e.flavour, bits: e.bits, depth: depth, ref: rk, grp: grp, sk: sk, pk: sk.Public(),
+	skStored, pkStored := reloadKeys(sk)
+	k := &pkey{skStored: skStored, pkStored: pkStored, name: fmt.Sprintf("%s/%d", e.flavour, e.bits), flavour: e.flavour, bits: e.bits, depth: depth, ref: rk, grp: grp, sk: sk, pk: sk.Public(),
 		ctLen: (rk.N2.BitLen() + 7) / 8, fresh: map[int]*paillier.Ciphertext{}, cache: map[string]*pstate{}, cached: map[string]bool{},
 		opCount: map[string]int{}, seenM: map[string]struct{}{}, seenR: map[string]struct{}{}, special: map[string]int{}}
 	N := rk.N
@@ -106,6 +110,8 @@ func newPKey(e primePair, depth int) *pkey {
 	k.scalars = []namedInt{
 		{"0", bi(0)}, {"1", bi(1)}, {"-1", bi(-1)}, {"2", bi(2)}, {"N", new(big.Int).Set(N)},
 		{"N+1", new(big.Int).Add(N, bi(1))}, {"-N", new(big.Int).Neg(N)}, {"2^64", new(big.Int).Lsh(bi(1), 64)},
+		// scalars longer than the ciphertext modulus N^2 ("scalar larger than N")
+		{"2N^2+3", new(big.Int).Add(new(big.Int).Lsh(rk.N2, 1), bi(3))}, {"-(N^3+1)", new(big.Int).Neg(new(big.Int).Add(new(big.Int).Mul(rk.N2, N), bi(1)))},
 	}
 	return k
 }
@@ -520,6 +526,34 @@ func (k *pkey) invariant(x *engine.X, s *pstate, hist []int) {
 			x.Failf("paillier/decrypt/modulus", "%s: decrypted plaintext lives modulo %s, not N", where, short(dec.Modulus().Big()))
 		}
 	}
+	// 2b. the same through the key after a store/reload round trip
+	if k.skStored != nil {
+		dec2, err := guard(func() (*paillier.Plaintext, error) { return k.skStored.Decrypt(s.ct) })
+		if err != nil || dec2.Value().Big().Cmp(m) != 0 {
+			got := "error"
+			if err == nil {
+				got = short(dec2.Value().Big())
+			}
+			x.Failf("paillier/reloaded-key/decrypt", "%s: Decrypt with the CBOR-reloaded secret key = %s (err %v)", where, got, err)
+		}
+		type op2 struct {
+			m *paillier.Plaintext
+			r *paillier.Nonce
+		}
+		o2, err := guard(func() (op2, error) {
+			om, or, e := k.skStored.Open(s.ct)
+			return op2{om, or}, e
+		})
+		if err != nil || o2.m.Value().Big().Cmp(m) != 0 || o2.r.Value().Value().Big().Cmp(r) != 0 {
+			x.Failf("paillier/reloaded-key/open", "%s: Open with the CBOR-reloaded secret key failed or differs (err %v)", where, err)
+		} else {
+			re, e := guard(func() (*paillier.Ciphertext, error) { return k.pkStored.EncryptWithNonce(o2.m, o2.r) })
+			re3, e3 := guard(func() (*paillier.Ciphertext, error) { return k.skStored.EncryptWithNonce(o2.m, o2.r) })
+			if e != nil || e3 != nil || !bytes.Equal(re.Bytes(), cb) || !bytes.Equal(re3.Bytes(), cb) {
+				x.Failf("paillier/reloaded-key/encrypt", "%s: EncryptWithNonce with the CBOR-reloaded keys does not reproduce the ciphertext (err %v / %v)", where, e, e3)
+			}
+		}
+	}
 	// 3. opening returns plaintext and nonce, and they re-encrypt to the same ciphertext (both paths)
 	type opened struct {
 		m *paillier.Plaintext
@@ -849,4 +883,25 @@ func runPaillier() []func() {
 		fs = append(fs, func() { k.runBFS(engine.Budget(6*time.Minute, 35*time.Minute)) })
 	}
 	return fs
+}
+
+// reloadKeys stores the secret key and its public key as CBOR and loads them back.
+func reloadKeys(sk *paillier.SecretKey) (*paillier.SecretKey, *paillier.PublicKey) {
+	b, err := serde.MarshalCBOR(sk)
+	if err != nil {
+		panic(engine.HarnessError{Msg: "MarshalCBOR(secret key): " + err.Error()})
+	}
+	sk2, err := serde.UnmarshalCBOR[*paillier.SecretKey](b)
+	if err != nil {
+		panic(engine.HarnessError{Msg: "UnmarshalCBOR(secret key): " + err.Error()})
+	}
+	pb, err := serde.MarshalCBOR(sk.Public())
+	if err != nil {
+		panic(engine.HarnessError{Msg: "MarshalCBOR(public key): " + err.Error()})
+	}
+	pk2, err := serde.UnmarshalCBOR[*paillier.PublicKey](pb)
+	if err != nil {
+		panic(engine.HarnessError{Msg: "UnmarshalCBOR(public key): " + err.Error()})
+	}
+	return sk2, pk2
 }
